@@ -71,6 +71,22 @@ func judge(c Case, w *vkit.W) {
 		// the input is a window of a larger caller buffer: neither the window nor the bytes behind it may be written
 		data := w.Scratch(string(c.Data))
 		snapshot := append([]byte{}, data...)
+		// what the receiver held before is not part of the input: the outcome must be the same for a receiver that already holds
+		// the zero date, an unrelated date, the very date the bytes name, or the same month and day in another year
+		for _, prior := range receivers(snapshot) {
+			if prior.Equal(sentinel) {
+				continue
+			}
+			alt, ref0 := prior, sentinel
+			errAlt, errRef := alt.UnmarshalBinary(data), ref0.UnmarshalBinary(data)
+			if (errAlt == nil) != (errRef == nil) || (errAlt != nil && errAlt.Error() != errRef.Error()) {
+				w.Fail(c, "outcome-depends-on-receiver", fmt.Sprintf("UnmarshalBinary(%v) into a receiver holding %v: %v; into a receiver holding %v: %v", snapshot, prior, errAlt, sentinel, errRef))
+			} else if errAlt == nil && !alt.Equal(ref0) {
+				w.Fail(c, "outcome-depends-on-receiver", fmt.Sprintf("UnmarshalBinary(%v) gives %v in a receiver that held %v and %v in one that held %v", snapshot, alt, prior, ref0, sentinel))
+			} else if errAlt != nil && !alt.Equal(prior) {
+				w.Fail(c, "receiver-changed-on-error", fmt.Sprintf("UnmarshalBinary(%v): error %v but the receiver changed from %v to %v", snapshot, errAlt, prior, alt))
+			}
+		}
 		got := sentinel
 		err := got.UnmarshalBinary(data)
 		if !bytes.Equal(data, snapshot) {
@@ -128,9 +144,31 @@ func judge(c Case, w *vkit.W) {
 	}
 }
 
+// receivers returns prior receiver values related to the bytes about to be decoded.
+func receivers(data []byte) []date.Date {
+	out := []date.Date{{}}
+	if len(data) < 7 {
+		return out
+	}
+	y := int64(int32(uint32(data[1])<<24 | uint32(data[2])<<16 | uint32(data[3])<<8 | uint32(data[4])))
+	m, d := int(data[5]), int(data[6])
+	for _, yy := range []int64{y, 2000, y + 1, y - 1, y/4*4} {
+		if yy >= -999999999 && yy <= 999999999 && ref.ValidYMD(yy, m, d) {
+			out = append(out, date.New(int(yy), date.Month(m), d))
+		}
+	}
+	if m >= 1 && m <= 12 {
+		out = append(out, date.New(int(y%10000), date.Month(m), 1))
+	}
+	return out
+}
+
 func TestCheck(t *testing.T) {
 	r := vkit.Start("C11")
 	defer r.Finish(t)
+	if r.ReplayCold() {
+		return
+	}
 	if r.Replay != "" {
 		var c Case
 		if err := r.LoadReplay(&c); err != nil {
@@ -329,6 +367,8 @@ func TestCheck(t *testing.T) {
 		})
 	})
 	r.Sampled()
+
+	r.ColdPhase(coldFirst)
 
 	r.Phase("E: rapid byte strings and dates", func() {
 		r.Rapid(t, "rapid-binary", 0, r.Pick(20000, 300000), func(rt *rapid.T, w *vkit.W) vkit.RapidCase {
